@@ -1,5 +1,6 @@
 import QProofs.C09
 import QProps.C08
+import QGen.C09
 /-!
 # C09 — linear estimation inverts the forward model (property theorems)
 
@@ -224,6 +225,91 @@ theorem lsqExact_optimal (A : Mat Rat m n) (b f : Vec Rat m) (v : Vec Rat n)
     abel
   rw [e, Matrix.mulVec_sub, Matrix.mulVec_mulVec, this, sub_self]
 
+/-! ## the rank guard as coded: exactly which forward models it lets through -/
+
+/-- C09.4d the inverse contract forces full column rank and a tall (or square) forward model:
+`G·(AᵀA) = 1 ⇒ rank A = n ∧ n ≤ m` (`rank` = Mathlib's `Matrix.rank`, the value numpy's `matrix_rank` approximates). -/
+theorem contract_rank [Field K] (G : Mat K n n) (A : Mat K m n) (h : Contract G A) :
+    A.toM.rank = n ∧ n ≤ m := m_contract_rank h.toM
+
+/-- C09.4e every forward model for which `inv(AᵀA)` exists passes the coded guard `min(shape) == rank`. -/
+theorem guard_passes_of_contract [Field K] (G : Mat K n n) (A : Mat K m n) (h : Contract G A) :
+    isFullRank m n A.toM.rank = true := by
+  obtain ⟨hr, hmn⟩ := contract_rank G A h
+  simp [isFullRank, hr, Nat.min_eq_right hmn]
+
+/-- C09.4f a wide forward model (`m < n`, more variables than equations) never admits the inverse the estimator
+needs, whatever numpy returns for `inv(AᵀA)`. -/
+theorem wide_no_contract [Field K] (A : Mat K m n) (hw : m < n) : ¬ ∃ G : Mat K n n, Contract G A := by
+  rintro ⟨G, h⟩
+  have := (contract_rank G A h).2
+  omega
+
+/-- C09.4g **exactly which matA the coded guard lets through** (ordered field, exact rank): the guard
+`min(matA.shape) == rank` passes iff either the inverse contract is solvable (full column rank: the informationally
+complete case the property is about) or matA is wide with full ROW rank — and for the latter no valid `inv(AᵀA)`
+exists (`wide_no_contract`): the guard is complete but not sound for wide matrices (`size = matA.shape[1]` would be). -/
+theorem guard_lets_through_iff [Field K] [LinearOrder K] [IsStrictOrderedRing K] (A : Mat K m n) :
+    isFullRank m n A.toM.rank = true ↔ (∃ G : Mat K n n, Contract G A) ∨ (m < n ∧ A.toM.rank = m) := by
+  constructor
+  · intro h
+    have hmin : min m n = A.toM.rank := by simpa [isFullRank] using h
+    by_cases hmn : n ≤ m
+    · left
+      have hr : A.toM.rank = n := by rw [← hmin]; exact Nat.min_eq_right hmn
+      obtain ⟨Gm, hG⟩ := m_contract_exists A.toM (m_injective_of_rank A.toM hr)
+      exact ⟨_, contract_of_matrix A Gm hG⟩
+    · right
+      have : m < n := by omega
+      exact ⟨this, by rw [← hmin]; exact Nat.min_eq_left (by omega)⟩
+  · rintro (⟨G, h⟩ | ⟨hw, hr⟩)
+    · exact guard_passes_of_contract G A h
+    · simp [isFullRank, hr, Nat.min_eq_left (Nat.le_of_lt hw)]
+
+/-! ## tie to the source: the definitions regenerated from linear_estimator.py / standard_qtomography.py
+(`lean/QGen/C09.lean`, rewritten by `harness/c09.py:translate` on every run) ARE the hand-written model -/
+
+/-- C09.src-a the pseudo-inverse expression read from the source (`np.linalg.inv(A.T @ A) @ A.T`, computed once before
+the loop) is the model's `aDdag` with numpy's inverse as parameter. -/
+theorem gen_A_ddag [Add K] [Mul K] [Zero K] (G : Mat K n n) (A : Mat K m n) :
+    QGen.C09.A_ddag (fun _ => G) A = aDdag G A := rfl
+
+/-- C09.src-b the per-dataset expression read from the source (`A_ddag @ (f - b)`) is the model's `estOne`. -/
+theorem gen_v [Add K] [Mul K] [Sub K] [Zero K] (Ad : Mat K n m) (b f : Vec K m) :
+    QGen.C09.v Ad f b = estOne Ad b f := rfl
+
+/-- C09.src-c the loop body of the model is the generated glue: component `[1]` of every `(count, distribution)` pair,
+`np.concatenate`, then `v`. -/
+theorem gen_estData [Add K] [Mul K] [Sub K] [Zero K] (Ad : Mat K n m) (b : Vec K m) (ds : List (Nat × List K)) :
+    estData Ad b ds = (do
+      let flat ← QGen.C09.join (ds.map QGen.C09.data_of)
+      let f ← toDataVec m flat
+      pure (QGen.C09.v Ad f b)) := rfl
+
+/-- C09.src-d the guard expression read from `is_fullrank_matA` (`size = min(matA.shape)`, `size == rank`) is the model's. -/
+theorem gen_is_fullrank (m n rank : Nat) : QGen.C09.is_fullrank m n rank = isFullRank m n rank := rfl
+
+/-- C09.src-e `estimated_var` / `estimated_qoperation` read entry `[0]` of the sequence, as the model's `estimate`. -/
+theorem gen_estimated_var [Add K] [Mul K] [Sub K] [Zero K] (rank : Nat) (G : Mat K n n) (A : Mat K m n)
+    (b : Vec K m) (ds : List (Nat × List K)) :
+    QGen.C09.estimated_var_index = QGen.C09.estimated_qoperation_index ∧
+    estimate rank G A b ds = (do
+      let vs ← estSeq rank G A b [ds]
+      match vs[QGen.C09.estimated_var_index]? with
+      | some v => pure v
+      | none => .error .index) := by
+  refine ⟨rfl, ?_⟩
+  unfold estimate
+  cases estSeq rank G A b [ds] with
+  | error e => rfl
+  | ok vs => cases vs <;> rfl
+
+/-- C09.src-f the headline clause restated on the generated definitions: exact data ⇒ exact recovery. -/
+theorem gen_est_exact [Field K] (G : Mat K n n) (A : Mat K m n) (b : Vec K m) (v0 : Vec K n)
+    (h : Contract G A) :
+    QGen.C09.v (QGen.C09.A_ddag (fun _ => G) A) ((A.mulVec v0).add b) b = v0 := by
+  rw [gen_A_ddag, gen_v]; exact est_exact G A b v0 h
+
 /-! ## C08 ∘ C09: exact data of the object built from `var₀` are inverted to `var₀` -/
 
 /-- C09.8a end-to-end (any tomography type): let `cs` be the coefficient dictionary of C08, `A`, `b` its
@@ -271,7 +357,51 @@ theorem qst_lin_recovers [Field K] (flag : Bool) (r : K) (povms : List (List (Li
   obtain ⟨per, rfl, haff⟩ := QM.C08.qst_affine flag r povms scheds cs var0.toList hcs
   exact lin_recovers_from_circuit per A b G hA hb hc var0 _ dists haff hd f hf
 
+/-! ## `estimated_qoperation(_sequence)`: the objects returned to the caller -/
+
+/-- C09.9a `estimated_qoperation_sequence` is the estimates mapped through `generate_from_var`, one object per dataset in
+order; `estimated_qoperation` is its first entry (IndexError on an empty sequence). -/
+theorem estimatedQoperation_pointwise [Field K] (kind : Kind) (flag : Bool) (r : K) (d2 mOut : Nat)
+    (vs : List (Vec K n)) :
+    (estimatedQoperationSeq kind flag r d2 mOut vs).length = vs.length ∧
+    (∀ i (h : i < vs.length), (estimatedQoperationSeq kind flag r d2 mOut vs)[i]? =
+        some (objOf kind flag r d2 mOut (vs[i]).toList)) ∧
+    estimatedQoperation kind flag r d2 mOut vs =
+      (match estimatedQoperationSeq kind flag r d2 mOut vs with
+       | o :: _ => .ok o
+       | [] => .error .index) := by
+  refine ⟨by simp [estimatedQoperationSeq], ?_, ?_⟩
+  · intro i h
+    simp [estimatedQoperationSeq, h]
+  · cases vs <;> rfl
+
+/-- C09.9b object-level exact recovery: with exact data `A v₀ + b` of the variable vector `v₀`, the returned object is
+the object built from `v₀` (state / POVM / gate / measurement process, both flags). -/
+theorem est_object_exact [Field K] (kind : Kind) (flag : Bool) (r : K) (d2 mOut : Nat) (G : Mat K n n)
+    (A : Mat K m n) (b : Vec K m) (v0 : Vec K n) (h : Contract G A) :
+    estimatedQoperation kind flag r d2 mOut [estOne (aDdag G A) b ((A.mulVec v0).add b)] =
+      .ok (objOf kind flag r d2 mOut v0.toList) := by
+  rw [est_exact G A b v0 h]; rfl
+
+/-- C09.9c QST end to end at the object level: dictionary from `qstCoeffs`, data = circuit statistics of the state built
+from `var₀` ⇒ `estimated_qoperation` is that state. -/
+theorem qst_object_recovered [Field K] (flag : Bool) (r : K) (d2 : Nat) (povms : List (List (List K)))
+    (scheds : List Nat) (cs : List (QM.C08.Coeff K)) (A : Mat K m n) (b : Vec K m) (G : Mat K n n)
+    (hcs : QM.C08.qstCoeffs flag r povms scheds = some cs)
+    (hA : rowsOf A = QM.C08.matA cs) (hb : b.toList = QM.C08.vecB cs) (hc : Contract G A)
+    (var0 : Vec K n) (dists : List (List K))
+    (hd : QM.C08.qstCircuit flag r povms scheds var0.toList = some dists)
+    (f : Vec K m) (hf : f.toList = dists.flatten) :
+    estimatedQoperation .state flag r d2 1 [estOne (aDdag G A) b f] =
+      .ok [QM.C08.stateOf flag r var0.toList] := by
+  rw [qst_lin_recovers flag r povms scheds cs A b G hcs hA hb hc var0 dists hd f hf]; rfl
+
 /-! ## non-vacuity: concrete instances of the hypotheses -/
+
+example : estimatedQoperation (K := Rat) .state true 2 4 1 [#v[1/4, 3/4, 0]] = .ok [[1/2, 1/4, 3/4, 0]] := by
+  decide +kernel
+example : estimatedQoperationSeq (K := Rat) .gate true 2 2 1 [#v[1/4, 3/4], #v[0, 1]] =
+    [[[1, 0], [1/4, 3/4]], [[1, 0], [0, 1]]] := by decide +kernel
 
 /-- a 3×2 forward model of full column rank and the exact inverse of `AᵀA` -/
 example : Contract (K := ℚ)
@@ -312,5 +442,37 @@ example : Contract (K := ℚ) (#v[#v[1, -1], #v[-1, 2]] : Mat ℚ 2 2) (#v[#v[1,
 
 example : QM.C08.qstCircuit false (1 : Rat) [[[1, 0], [1, 1]]] [0] (#v[1/3, 1/4] : Vec Rat 2).toList =
     some [[1/3, 7/12]] := by decide +kernel
+
+/-- the generated definitions evaluated on the 3×2 instance above -/
+example : QGen.C09.v (QGen.C09.A_ddag (fun _ => (#v[#v[2/3, -1/3], #v[-1/3, 2/3]] : Mat Rat 2 2))
+    (#v[#v[1, 0], #v[0, 1], #v[1, 1]] : Mat Rat 3 2)) (#v[1/4, 3/4, 3/2] : Vec Rat 3) (#v[0, 0, 1/2] : Vec Rat 3)
+    = #v[1/4, 3/4] := by decide +kernel
+
+example : QGen.C09.is_fullrank 3 2 2 = true ∧ QGen.C09.is_fullrank 2 3 2 = true ∧ QGen.C09.is_fullrank 3 2 1 = false := by
+  decide
+
+/-- the 3×2 instance passes the guard through the solvable branch of `guard_lets_through_iff` -/
+example : isFullRank 3 2 (Mat.toM (#v[#v[1, 0], #v[0, 1], #v[1, 1]] : Mat ℚ 3 2)).rank = true :=
+  (guard_lets_through_iff _).2 (Or.inl ⟨(#v[#v[2/3, -1/3], #v[-1/3, 2/3]] : Mat ℚ 2 2), by
+    unfold Contract; decide +kernel⟩)
+
+/-- a wide matrix of full row rank passes the guard although no inverse contract can hold for it -/
+example : isFullRank 1 2 (Mat.toM (#v[#v[1, 1]] : Mat ℚ 1 2)).rank = true ∧
+    ¬ ∃ G : Mat ℚ 2 2, Contract G (#v[#v[1, 1]] : Mat ℚ 1 2) := by
+  refine ⟨?_, wide_no_contract _ (by omega)⟩
+  rw [guard_lets_through_iff]
+  right
+  refine ⟨by omega, le_antisymm (Matrix.rank_le_height _) ?_⟩
+  set M := Mat.toM (#v[#v[1, 1]] : Mat ℚ 1 2) with hM
+  have h1 : (M * Mᵀ).rank ≤ M.rank := Matrix.rank_mul_le_left _ _
+  have e : M * Mᵀ = (2 : ℚ) • (1 : Matrix (Fin 1) (Fin 1) ℚ) := by
+    ext i j
+    fin_cases i; fin_cases j
+    simp [hM, Mat.toM, Mat.get, Matrix.mul_apply, Fin.sum_univ_two]
+    norm_num
+  have hu : IsUnit ((2 : ℚ) • (1 : Matrix (Fin 1) (Fin 1) ℚ)) := by
+    rw [Matrix.isUnit_iff_isUnit_det]; simp
+  rw [e, Matrix.rank_of_isUnit _ hu] at h1
+  simpa using h1
 
 end QM.C09
